@@ -32,4 +32,6 @@ MixesSim3 == {<<x, y, z>> : x, y, z \in Kinds7} \cup {<<"flushw", x, y, z>> : x,
 Kinds6 == {"pause", "resume", "flushw", "flushn", "reset", "restart"}
 MixesSimC11 == {<<"flushw", y, z>> : y, z \in Kinds6} \cup {<<"flushw", "flushw", y, z>> : y, z \in Kinds6 \ {"flushn"}}
 EditsC11x == EditsC11 \cup {D2m}
+\* status machine / reconnect / back-off: failures in a row, with the timers allowed to fire
+MixesStatus == {<<"flushw", "pause", "resume">>, <<"resume", "flushw", "restart">>, <<"flushw", "flushn", "resume">>}
 ====
